@@ -723,7 +723,8 @@ def rule_redeclared(chk, prog, tier):
     # ---- members
     am = prog.require_func('addmember', 'decl.c')
     ML = [(['a', 'b'], True), (['a', 'a'], False), (['a', 'b', 'a'], False), (['a', ('anon', ['b']), 'b'], False), (['a', ('anon', ['b']), 'c'], True), ([('anon', ['x', 'y']), 'y'], False), (['a', 'a:3'], False), (['a:3', 'b:3'], True),
-          (['b', ('anon', ['b'])], False), (['a', ('anon', ['x', 'a'])], False), ([('anon', ['x']), ('anon', ['x'])], False), ([('anon', ['x']), ('anon', ['y'])], True), (['a', 'b', ('anon', ['c', 'd'])], True)]
+          (['b', ('anon', ['b'])], False), (['a', ('anon', ['x', 'a'])], False), ([('anon', ['x']), ('anon', ['x'])], False), ([('anon', ['x']), ('anon', ['y'])], True), (['a', 'b', ('anon', ['c', 'd'])], True),
+          (['a', ('anon', ['b', ('anon', ['a'])])], False), (['a', ('anon', [('anon', [('anon', ['a'])])])], False), ([('anon', [('anon', ['x'])]), 'x'], False), (['a', ('anon', ['b', ('anon', ['c'])])], True)]
     for kind in ('TYPESTRUCT', 'TYPEUNION'):
         for members, ok in ML:
             def runner(it):
@@ -733,15 +734,21 @@ def rule_redeclared(chk, prog, tier):
                 b.f[('type',)] = t; b.f[('last',)] = Ptr(t.obj, ('u', 'structunion', 'members')); b.f[('bits',)] = 0; b.f[('pack',)] = 0
                 it.models.update({'xmalloc': lambda i2, a, e: Ptr(Obj('m@%s' % e.get('line'), 'heap'), ()),
                                   'error': lambda i2, a, e: (_ for _ in ()).throw(Terminal('error', cmodel.fmt_of(i2, a, 1)))})
+                def anon(names):
+                    # an anonymous struct whose members are ints or, for a nested tuple, further anonymous structs
+                    inner = w.mkstruct(size=4 * len(names), align=4); inner.obj.f[('flexible',)] = 0; prev = None
+                    for k, nm in enumerate(names):
+                        mo = Obj('im', 'heap')
+                        if isinstance(nm, tuple): mo.f.update({('name',): None, ('type',): anon(nm[1])})
+                        else: mo.f.update({('name',): Ptr(it.mkstr(list(nm.encode()), nm), (0,)), ('type',): w.t('int')})
+                        mo.f.update({('qual',): 0, ('offset',): 4 * k, ('bits', 'before'): 0, ('bits', 'after'): 0, ('bitfield',): 0, ('next',): None})
+                        if prev is None: inner.obj.f[('u', 'structunion', 'members')] = Ptr(mo, ())
+                        else: prev.f[('next',)] = Ptr(mo, ())
+                        prev = mo
+                    return inner
                 for m in members:
                     if isinstance(m, tuple):
-                        inner = w.mkstruct(size=4 * len(m[1]), align=4); inner.obj.f[('flexible',)] = 0; prev = None
-                        for k, nm in enumerate(m[1]):
-                            mo = Obj('im', 'heap'); mo.f.update({('name',): Ptr(it.mkstr(list(nm.encode()), nm), (0,)), ('type',): w.t('int'), ('qual',): 0, ('offset',): 4 * k, ('bits', 'before'): 0, ('bits', 'after'): 0, ('next',): None})
-                            if prev is None: inner.obj.f[('u', 'structunion', 'members')] = Ptr(mo, ())
-                            else: prev.f[('next',)] = Ptr(mo, ())
-                            prev = mo
-                        it.call(am, [Ptr(b, ()), StructVal({('type',): inner, ('qual',): 0, ('expr',): None}), None, 0, 2 ** 64 - 1])
+                        it.call(am, [Ptr(b, ()), StructVal({('type',): anon(m[1]), ('qual',): 0, ('expr',): None}), None, 0, 2 ** 64 - 1])
                     else:
                         nm, _, wd = m.partition(':')
                         it.call(am, [Ptr(b, ()), StructVal({('type',): w.t('int'), ('qual',): 0, ('expr',): None}), Ptr(it.mkstr(list(nm.encode()), nm), (0,)), 0, int(wd) if wd else 2 ** 64 - 1])
@@ -750,7 +757,7 @@ def rule_redeclared(chk, prog, tier):
             if len(runs) != 1 or runs[0].outcome == 'unsupported':
                 raise AnalysisBroken('addmember %s: %s' % (members, runs[0].detail if runs else 'no run'))
             got_ok = runs[0].outcome == 'return'
-            r.instance(got_ok == ok, 'redeclared:%s members(%s)' % (kind[4:].lower(), ', '.join(m if isinstance(m, str) else '{%s}' % ','.join(m[1]) for m in members)), 'decl.c:addmember',
+            r.instance(got_ok == ok, 'redeclared:%s members(%s)' % (kind[4:].lower(), ', '.join(m if isinstance(m, str) else str(m[1]).replace("'", '').replace('(anon, ', '').replace('[', '{').replace(']', '}').replace(')', '') for m in members)), 'decl.c:addmember',
                        'must be %s; cproc: %s %s' % ('accepted' if ok else 'diagnosed', runs[0].outcome, runs[0].detail if not got_ok else ''))
     # ---- enumerators
     ts = prog.require_func('tagspec', 'decl.c')
